@@ -109,7 +109,7 @@ impl Part for Spellings {
     }
     fn cases(&self, tier: Tier) -> usize {
         match tier {
-            Tier::Quick => 24_000,
+            Tier::Quick => 72_000,
             Tier::Thorough => 1_200_000,
         }
     }
